@@ -1,6 +1,68 @@
-"""C15: references by id and by alias are interchangeable; names are arbitrary."""
-import meta_check
+"""C15: references by id and by alias are interchangeable; names are arbitrary.
+Two layers.  (1) The scenario model has no spelling: Properties/C15.v proves invariance under renumbering / renaming, and
+the metamorphic family renders every scenario in every spelling (meta_check).  (2) The STRING layer the renderings go
+through -- utils.is_global_ref / parse_* / reduce_ref, SchemaValidator._resolve_global_ref, _normalize_ref,
+_ref_has_path -- has its own kernel model Model/Resolve.v with theorems in Properties/C15_resolve.v (both spellings of an
+entity resolve to it, normalisation is idempotent and keeps the denotation, normal forms of path-free references coincide
+exactly for the same entity, unresolvable references are left alone) and its own correspondence corr/resolve.py."""
+import random, collections, json
+import meta_check, kernel
+from corr import resolve as R
 LEVEL = "proof"
+
+
+def resolve_layer(ctx):
+    """kernel correspondence of the reference string layer + the theorems of Properties/C15_resolve.v in the evidence"""
+    from checks.c16 import extra_property_file
+    ok, thms, log = extra_property_file(ctx, "C15_resolve")
+    quick = ctx.tier == "quick"
+    rng = random.Random(ctx.seed * 1000003 + 15)
+    bad_consts = R.check_consts(ctx.repo_copy)
+    cases = R.gen_cases(rng, 600 if quick else 6000)
+    failing, results, evaluated = kernel.corr_step(ctx, R, cases, R.MAX_PER_FILE, "resolve")
+
+    def payload(i):
+        c = cases[i]
+        return {"reference": c["ref"], "category": c["cat"], "built_from": c["built"], "implementation": results[i],
+                "environment": {"native": c["env"]["native"], "imported_schemas": c["env"]["imported"], "within_theorem_hypotheses": not c["env"]["odd"]},
+                "evaluated_before_on_the_same_validator_instance": [d["ref"] for d in cases[:i] if d["env_id"] == c["env_id"]],
+                "how": "SchemaValidator().schema = native collections + imported_schemas; _resolve_global_ref / _normalize_ref / _ref_has_path / utils.* on the reference; one instance per environment"}
+    complaints = [(i, b) for i, b in ((i, R.spec_check(cases[i], results[i])) for i in range(len(cases))) if b]
+    for i, b in complaints[:3]:
+        ctx.violation(dict(payload(i), what="the reference layer violates the property on this input: " + "; ".join(b)))
+    if not complaints:
+        for i in failing[:3]:
+            ctx.violation(dict(payload(i), what="correspondence T3 resolve: the Gallina model (Model/Resolve.v) and the implementation's reference functions disagree"),
+                          no_input=True)
+    if bad_consts:
+        ctx.violation({"what": "ref_types / the reference expressions of patterns.py / the ref_config of a kind differ from the data of Model/Resolve.v",
+                       "mismatches": bad_consts}, no_input=True)
+    cov = ctx.coverage
+    dist = collections.Counter("%s -> %s" % (c["cat"], R.outcome_class(r)) for c, r in zip(cases, results))
+    changed = sum(1 for c, r in zip(cases, results) if r["norm_id"] == ["val", c["ref"]]), \
+        sum(1 for c, r in zip(cases, results) if r["norm_id"][0] == "val" and r["norm_id"][1] != c["ref"])
+    cov["evaluations"] = cov.get("evaluations", 0) + len(cases)
+    cov["distinct_nontrivial"] = cov.get("distinct_nontrivial", 0) + len(set((c["env_id"], c["ref"]) for c in cases))
+    cov["disagreements_checked"] = cov.get("disagreements_checked", 0) + len(failing)
+    cov["resolve_layer"] = {"cases": len(cases), "environments": len(set(c["env_id"] for c in cases)),
+                            "environments_outside_theorem_hypotheses": len(set(c["env_id"] for c in cases if c["env"]["odd"])),
+                            "category_outcome": dict(sorted(dist.items())), "normalize_unchanged": changed[0], "normalize_rewrites": changed[1],
+                            "model_disagreements": len(failing), "property_complaints": len(complaints),
+                            "compared_per_case": ["_resolve_global_ref (identity of the item)", "_normalize_ref", "_normalize_ref(to_alias=True)",
+                                                  "_normalize_ref(to_alias=True, alias_attribute_name='alias')", "_ref_has_path", "reduce_ref", "is_global_ref",
+                                                  "is_import_ref", "truncate_schema_id", "parse_schema_id", "parse_ref_type", "parse_ref_id", "as_ref / prepend_schema_id"]}
+    cov["rule"] = cov.get("rule", "") + ("; reference string layer: environments of 1-6 entities per kind with confusable ids (0,1,10,11,2,12...), names that are decimal spellings of "
+                                         "other entities' ids, odd names, 0-2 loaded imported schemas overlapping the native ids and names; per environment every spelling of its "
+                                         "entities with / without paths and qualifiers, unloaded and number-spelled qualifiers, dangling ids and aliases, wrong kinds, lexically "
+                                         "broken and randomly damaged strings; distinct by (environment, text)")
+    cov["samples"] = list(cov.get("samples", []))[:3] + [{"reference": cases[0]["ref"], "implementation": results[0]}]
+    cov["trusted_base"] = list(cov.get("trusted_base", [])) + [
+        "corr/resolve.py (generator of environments and reference strings, runner of the real reference functions on a SchemaValidator whose .schema is the environment, printer of cases as Coq terms)",
+        "Model/Resolve.v mirrors re.match for the three reference expressions of patterns.py by hand (source text compared on every run); ASCII"]
+    if not evaluated and not ctx.violations:
+        kernel.obligation_violation(ctx, thms, "; ".join(ctx.notes[-3:]), {"correspondence": "Coq evaluation of the reference-layer cases failed"})
+    if not ok and not ctx.violations:
+        kernel.obligation_violation(ctx, thms, log)
 
 
 def run(ctx):
@@ -9,3 +71,4 @@ def run(ctx):
         what="respelling references or renaming / renumbering entities changes the verdict",
         rule="conformant scenarios and single-fault mutants (all mutators), each rendered 4 times: every reference by id, every reference by alias, independently mixed spelling per occurrence, and a consistent injective renumbering of all ids / renaming of all names, variables and attribute names; array order fixed; distinct by abstract scenario",
         trusted=["the abstract syntax has no spelling: (kind, id) references; Properties/C15.v proves invariance of the model under injective renumbering and renaming"])
+    resolve_layer(ctx)
